@@ -7,6 +7,7 @@ import (
 	"bytes"
 	"encoding/json"
 	"fmt"
+	mbits "math/bits"
 	"os"
 	"os/exec"
 	"path/filepath"
@@ -105,6 +106,53 @@ func cmdSelftestEngine() int {
 			bad++
 		}
 		sv.Close()
+	}
+	// math/bits encodings: evaluate the terms under concrete models and compare
+	// with the library; then let the solver look for a value where the encoding
+	// leaves the range the library guarantees or disagrees with a bit-level
+	// characterisation (tz: bit tz is set and all lower bits are clear).
+	{
+		tc := NewTermCtx()
+		ex := &Exec{tc: tc}
+		x := tc.Var("x_v64", bvSort(64))
+		tz, lz := ex.tzTerm(x), ex.lzTerm(x)
+		vals := []uint64{0, 1, 2, 3, 0x80, 0xff00, 1 << 31, 1 << 32, 1 << 63, ^uint64(0), 0x8000000000000001, 0x00f0000000000000}
+		rng := uint64(0x9e3779b97f4a7c15)
+		for i := 0; i < 4000; i++ {
+			rng ^= rng << 13
+			rng ^= rng >> 7
+			rng ^= rng << 17
+			vals = append(vals, rng, rng>>(i%64), rng<<(i%64))
+		}
+		nb := 0
+		for _, v := range vals {
+			m := Model{x: v}
+			if got := tc.Eval(tz, m, map[*Term]uint64{}); got != uint64(mbits.TrailingZeros64(v)) {
+				nb++
+			}
+			if got := tc.Eval(lz, m, map[*Term]uint64{}); got != uint64(mbits.LeadingZeros64(v)) {
+				nb++
+			}
+		}
+		fmt.Printf("selftest-engine: math/bits encodings evaluated on %d values, %d mismatches\n", len(vals), nb)
+		bad += nb
+		if sv, err := NewSolver("z3", tc, 60*time.Second); err == nil {
+			one := tc.BV(64, 1)
+			nz := tc.Not(tc.Eq(x, tc.BV(64, 0)))
+			// for x != 0: x>>tz is odd and x has no bit below tz; x<<lz has its top bit set
+			okTz := tc.And(tc.Lt(tz, tc.BV(64, 64), false),
+				tc.Eq(tc.BAnd(tc.bin(OpLShr, x, tz), one), one),
+				tc.Eq(tc.bin(OpShl, tc.bin(OpLShr, x, tz), tz), x))
+			okLz := tc.And(tc.Lt(lz, tc.BV(64, 64), false),
+				tc.Eq(tc.bin(OpLShr, tc.bin(OpShl, x, lz), tc.BV(64, 63)), one),
+				tc.Eq(tc.bin(OpLShr, tc.bin(OpShl, x, lz), lz), x))
+			r, _ := sv.Check([]*Term{nz}, tc.Not(tc.And(okTz, okLz)), nil)
+			fmt.Printf("selftest-engine: math/bits encodings vs bit-level characterisation for every 64-bit value: %v (unsat expected)\n", r)
+			if r != Unsat {
+				bad++
+			}
+			sv.Close()
+		}
 	}
 	if bad > 0 {
 		return 2
